@@ -48,7 +48,8 @@ Inductive ty :=
 | TTup (ts : list ty)
 | TEnum (vs : list ty)
 | TArr (t : ty)
-| TSnap (t : ty).
+| TSnap (t : ty)
+| TBox (t : ty).
 
 Definition TUnit : ty := TTup [].
 Definition TOption (t : ty) : ty := TEnum [t; TUnit].
@@ -197,6 +198,33 @@ Definition unop_sem (o : unop) (t : ty) (a : value) : opres :=
   | _, _, _ => OStuck
   end.
 
+(* the non-panicking families of core::num::traits on integers: wrapping_*, overflowing_*,
+   checked_*, saturating_* (corelib/src/num/traits/ops/*.cairo, integer.cairo signed helpers):
+   add and sub for every integer type, mul for the unsigned ones.  The wrapped value is the
+   mathematical result reduced into the range of the type (two's complement for signed);
+   overflowing returns (wrapped, overflowed?); checked returns an Option; saturating clamps. *)
+Inductive arithk := AWrapping | AOverflowing | AChecked | ASaturating.
+
+Definition wrap (i : ity) (r : Z) : Z := (r - imin i) mod 2 ^ ibits i + imin i.
+
+Definition arith_sem (k : arithk) (o : binop) (i : ity) (a b : Z) : opres :=
+  match (match o with
+         | Add => Some (a + b)
+         | Sub => Some (a - b)
+         | Mul => if isigned i then None else Some (a * b)
+         | _ => None
+         end) with
+  | None => OStuck
+  | Some r =>
+      match k with
+      | AWrapping => OVal (VInt (wrap i r))
+      | AOverflowing => OVal (VTup [VInt (wrap i r); VBool (negb (in_range i r))])
+      | AChecked => OVal (if in_range i r then VSome (VInt r) else VNone)
+      | ASaturating =>
+          OVal (VInt (if r >? imax i then imax i else if r <? imin i then imin i else r))
+      end
+  end.
+
 (* conversions.
    [CInto]: the total ones (Upcastable pairs: the source range is inside the target range;
             integer / bool -> felt252).
@@ -260,7 +288,11 @@ Inductive expr :=
 | EArrLen (x : nat)
 | EArrAt (x : nat) (i : expr)                   (* *x.at(i), panics 'Index out of bounds' *)
 | ESnap (e : expr)
-| EDesnap (e : expr).
+| EDesnap (e : expr)
+| EBox (e : expr)                               (* BoxTrait::new(e) *)
+| EUnbox (e : expr)                             (* e.unbox() *)
+| ELetTup (xs : list nat) (e1 body : expr)      (* let (x1, .., xn) = e1; body   (tuple or struct pattern) *)
+| EArith (k : arithk) (o : binop) (t : ty) (e1 e2 : expr).   (* e1.wrapping_add(e2), ... *)
 
 (* a parameter: name, type, passed by `ref`? *)
 Record param := { pname : nat; pty : ty; pref : bool }.
@@ -381,6 +413,15 @@ Fixpoint write_back (ps : list param) (a : list (arg expr)) (c : env) (s : env) 
       end
   | _, _ => None
   end.
+
+(* destructuring: the variables of the pattern are pushed in order *)
+Fixpoint bind_many (xs : list nat) (vs : list value) (s : env) : option env :=
+  match xs, vs with
+  | [], [] => Some s
+  | x :: xr, v :: vr => bind_many xr vr ((x, v) :: s)
+  | _, _ => None
+  end.
+Definition popn (k : nat) (r : res * env) : res * env := (fst r, skipn k (snd r)).
 
 Definition unit_res (s : env) : res * env := (RVal VUnit, s).
 Definition stuck (s : env) : res * env := (RStuck, s).
@@ -562,6 +603,25 @@ Fixpoint eval (p : prog) (n : nat) (s : env) (e : expr) {struct n} : res * env :
           end)
     | ESnap e1 => eval p n s e1
     | EDesnap e1 => eval p n s e1
+    | EBox e1 => eval p n s e1
+    | EUnbox e1 => eval p n s e1
+    | ELetTup xs e1 body =>
+        bindv (eval p n s e1) (fun v s1 =>
+          match v with
+          | VTup vs =>
+              match bind_many xs vs s1 with
+              | Some s2 => popn (length xs) (eval p n s2 body)
+              | None => stuck s1
+              end
+          | _ => stuck s1
+          end)
+    | EArith k o t e1 e2 =>
+        bindv (eval p n s e1) (fun a s1 =>
+        bindv (eval p n s1 e2) (fun b s2 =>
+          match t, a, b with
+          | TInt i, VInt x, VInt y => of_opres (arith_sem k o i x y) s2
+          | _, _, _ => stuck s2
+          end))
     end
   end.
 
